@@ -17,7 +17,7 @@ RULES = [
     (r"check_var::check_utils_defined$", EC, "first failing verify_util is reported; accept/reject is order-free"),
     (r"check_var::check_var_in_(constraints|fix|transform)$", EC, "membership tests against a fully built set; order only decides which undefined/duplicate variable is named in the error"),
     (r"combined::CombinedScan::<'r, L>::scan$", "SORTED-LATER", "unused-suppression nodes are sorted by start offset in ScanResultInner::into_result on both branches", {"guard": "suppressions_sorted_later"}),
-    (r"combined::ScanResultInner::<'t, D>::into_result$", "PRESENTATION", "order of the per-rule groups of matches of one file (HashMap<rule index, matches> -> Vec); each group and its content are order-free"),
+    # (combined::ScanResultInner::into_result: no row — since the F31 repair the groups are sorted; an unsorted listing must be reported)
     (r"fixer::Fixer::<L>::(do_parse|with_transform)$", "SET-LIKE", "transform names are only tested with `contains` by the template scanner", {"guard": "transform_names_used_as_set"}),
     (r"deserialize_env::TopologicalSort::<'a, T>::get_order$", "TOPO", "dependencies are visited before dependants whatever the start key (R2: visit is post-order); order among independent keys and the key named in a cycle error vary, registration results do not"),
     (r"DependentRule>::visit_dependency::\{closure#\d\}$", "TOPO", "the rules of constraints/local utils are only walked to call TopologicalSort::visit for the ids they reference: a post-order visit yields dependencies first whatever the walk order (R2); only the id named in a cycle error can vary"),
